@@ -184,10 +184,11 @@ PROPS = {
     "C20": {
         "module": "Cuke.Props.C20",
         "namespace": "Cuke.C20",
-        "families": [("trace.run", 200, 3000), ("trace.frame", 20000, 600000)],
+        "families": [("trace.run", 200, 3000), ("trace.frame", 20000, 600000), ("trace.coll", 10000, 400000)],
         "modelled_not_verified": [
             "tracing / tracing-subscriber (one write per event, on_close on span drop) and the global dispatcher: one real run per child process",
-            "the collector protocol model (Cuke.Tr) is NOT replayed against probes inside src/tracing.rs; its tie is end-to-end (monitor on the event stream of real runs). The byte-level framing (Cuke.Frame) IS tied directly: the real CollectorWriter::write runs on generated buffers (cfg hook verif_unframe) and is compared with the model",
+            "the collector protocol model (Cuke.Tr) is tied directly: random operation sequences (start / finish scenario, log with / without / with an unregistered id, span close, waiter registration, forward_logs turn) run through a REAL tracing Collector (cfg hook VerifCollector) and through the model (family trace.coll); and end-to-end (monitor on the event stream of real runs). The byte-level framing (Cuke.Frame) is tied directly too: the real CollectorWriter::write runs on generated buffers (cfg hook verif_unframe)",
+            "HashMap iteration order in the collector (broadcast of a log without a registered id to all active scenarios; order in which complete span entries fire): compared as sets per log / per turn",
             "String::from_utf8_lossy (buffers are valid UTF-8 in every run), str::split_terminator / rsplit_once / strip_suffix / u64::from_str: modelled on List Char, tied by the differential",
         ],
     },
